@@ -218,6 +218,15 @@ func check(c Case) hx.Verdict {
 	if c.In == "yaml" && strings.Contains(c.Doc, "*") && hx.YAMLCyclic(c.Doc) {
 		return hx.Disc("cyclic_alias")
 	}
+	// the wrapper puts E where a condition, key or operand goes; that only means something
+	// when E is an expression by itself. A fragment the parser rejects alone can still balance
+	// inside the wrapper (`.. | select(.a.[collect | 0] | 0.a)`: the bare word takes `..` as its
+	// operand and the traversal lands outside the select), and then nothing is in that position
+	if c.E != "" {
+		if _, po := hx.Parse(c.E); po.Err != "" {
+			return hx.Disc("operand_does_not_parse_alone")
+		}
+	}
 	// (iii) in-process: the decoded document must re-encode identically after the evaluation
 	var before, after string
 	var evalErr string
